@@ -54,7 +54,7 @@ fn unit(r: Result<(), SignError>) -> SignOut {
 
 fn err(e: SignError) -> SignOut {
     match e {
-        SignError::Bus { source } => SignOut::Bus(source.to_string()),
+        SignError::Bus { source } => SignOut::Bus(crate::doubles::describe_bus_error(source.as_ref())),
         SignError::UnexpectedResponse { expected, actual } => SignOut::Protocol { expected, actual },
         other => SignOut::Bus(format!("unmatched SignError variant: {:?}", other)),
     }
@@ -91,7 +91,9 @@ pub fn page_from_image(w: u32, h: u32, image: Vec<u8>) -> Page<'static> {
 // ------------------------------------------------------------------------------------------------
 // Adversarial scripted bus with the reference machine in lockstep
 
-pub const N_SYMBOLS: usize = 44;
+pub const N_SYMBOLS: usize = 46;
+/// index of the "echo" symbol: the bus answers with the very message it was given
+pub const SYM_ECHO: u16 = 44;
 
 /// The 44-symbol reply alphabet for a controller at `own`, with `foreign` as the other address.
 pub fn alphabet(own: u16, foreign: u16) -> Vec<Reply> {
@@ -112,6 +114,10 @@ pub fn alphabet(own: u16, foreign: u16) -> Vec<Reply> {
     v.push(Reply::Msg(Some(RefMsg::Unknown { addr: own, ty: 0x42, data: vec![0x07] })));
     v.push(Reply::Msg(Some(RefMsg::Data { offset: 0, data: vec![0x0F; 16] })));
     v.push(Reply::BusError);
+    // 44: echo (placeholder; the scripted bus substitutes the message just sent); 45: a frame of the state-report type
+    // whose state byte is not a documented state (it is an unknown frame, not "busy" and not "received")
+    v.push(Reply::Msg(None));
+    v.push(Reply::Msg(Some(RefMsg::Unknown { addr: own, ty: 0x04, data: vec![0x17] })));
     assert_eq!(v.len(), N_SYMBOLS);
     v
 }
@@ -184,7 +190,7 @@ impl SignBus for ScriptBus {
                 self.script.push(c);
             }
             let c = self.script[depth];
-            (self.alphabet[c as usize].clone(), c)
+            if c == SYM_ECHO { (Reply::Msg(Some(got.clone())), c) } else { (self.alphabet[c as usize].clone(), c) }
         };
         self.offered.push(sym);
         if let Some(m) = &mut self.model {
@@ -216,6 +222,8 @@ pub struct Conversation {
     pub expected_outcome: Option<Outcome>,
     /// what the same `Sign` object did before this call ("operation -> result"), oldest first
     pub prior_calls: Vec<String>,
+    /// the kind of error object the scripted bus fails with in this conversation
+    pub error_flavour: u8,
 }
 
 impl Conversation {
@@ -329,6 +337,7 @@ impl Session {
             divergence,
             expected_outcome,
             prior_calls,
+            error_flavour: b.error_flavour,
         }
     }
 }
